@@ -286,14 +286,14 @@ func CheckC20(p *Pkg, e *Env, r *res.Result) {
 			}
 			plans = append(plans, seq)
 		}
-		base := "http://h.example" + p.BasePath + "/"
+		base := "http://h.example" + escapedBase(p.BasePath) + "/"
 		var do func(*http.Request) (*http.Response, error)
 		var srv *httptest.Server
 		if useServer {
 			srv = httptest.NewServer(ci.h)
 			defer srv.Close()
 			hc := srv.Client()
-			base = srv.URL + p.BasePath + "/"
+			base = srv.URL + escapedBase(p.BasePath) + "/"
 			do = func(req *http.Request) (*http.Response, error) {
 				req.Header.Set("X-Verif-Tag", req.Context().Value(tagKey{}).(string))
 				return hc.Do(req)
